@@ -20,6 +20,7 @@ from ..effects import effects_of, reachable, all_effects
 from ..poly import Rat, C, mk_atom, subst, REG, fn
 from ..vg import Evaluator, vkey, atoms_of
 from ..domains import sign, POS, NONNEG, ZERO, UNK, NEG, NONPOS
+from ..model import CannotAnalyse
 from .common import site, key, all_attr_stores
 
 EL = 'gnpy.core.elements'
@@ -221,4 +222,79 @@ def asinh_difference_nonneg(val, positive):
     return ok, f'scale sign {s1}; argument difference {d.key()[:160]} sign {sd}'
 
 
-RULES = [('R1.effects', r1_effects), ('R2.identities', r2_identities), ('R3.sign', r3_sign)]
+def r3b_raman_ase(ctx):
+    """sign of the spontaneous Raman ASE of a Raman fibre: every additive contribution (one per pump) must be
+    non-negative.  It is, by form, when it carries the indicator  pump frequency > channel frequency : under it the
+    phonon factor 1 + eta = E/(E - 1), E = exp(h df / kT) > 1, is positive and the Raman coefficient is a gain."""
+    from ..vg import loopvar
+    from ..poly import Poly
+    repo = ctx.repo
+    si = repo.cls('SpectralInformation', 'gnpy.core.info')
+    RS = repo.cls('RamanSolver', 'gnpy.core.science_utils')
+    f = repo.method(RS, 'calculate_spontaneous_raman_scattering')
+    sp = f.params[0]
+    ev = Evaluator(repo, f, types={sp: si}, no_inline={'cr'}).run_function()
+    lbs = [(lid, lb) for lid, lb in ev.loop_bodies.items() if 'raman_pumps' in ast.unparse(lb['node'].iter if hasattr(lb['node'], 'iter') else lb['node'])]
+    if len(lbs) != 1:
+        raise CannotAnalyse('calculate_spontaneous_raman_scattering: loop over the Raman pumps not found')
+    lid, lb = lbs[0]
+    ret = ev.ret()
+    acc = [nm for nm in lb['post'] if isinstance(lb['post'][nm], Rat) and isinstance(ret, Rat) and f"loop#{lid}('{nm}'" in vkey(ret)]
+    if len(acc) != 1:
+        raise CannotAnalyse('cannot identify the ASE accumulator of the pump loop')
+    inc = lb['post'][acc[0]] - loopvar(lid, acc[0])
+    s = site(f)
+    fch = Rat.of(mk_atom('fld', f'{sp}._frequency'))
+    masks = [a for a in atoms_of(inc).values() if a.kind == 'fn' and a.name == 'cond' and isinstance(a.args[0], str) and a.args[0].startswith('lt(0,')]
+    mask = None
+    for a in masks:
+        info = ev.cond_info.get(a.args[0])
+        if info and isinstance(info[2], Rat):
+            d = info[2] + fch            # = pump frequency
+            if d.single_atom() is not None and 'frequency' in d.single_atom().key and 'pump' in d.single_atom().key:
+                mask = (a, d)
+    pos_names = ('h', 'k')
+
+    def positive(at, under_mask):
+        if at.kind == 'sym' and at.name in pos_names or at.kind == 'sym' and at.name.endswith('#pos'):
+            return True
+        if at.kind == 'fld' and (at.name.endswith('._baud_rate') or at.name.endswith('._frequency') or at.name.endswith('.temperature')
+                                 or at.name.endswith('.frequency')):
+            return True
+        if at.kind == 'fn' and at.name == 'trapz':
+            return True                       # integral of a ratio of positive power / loss profiles
+        if at.kind == 'fn' and at.name == 'cond':
+            return True                       # indicator in {0, 1}: treated as a non-negative factor
+        if under_mask and at.kind == 'fn' and at.name == 'sub' and '.cr(' in at.key:
+            return True                       # Raman coefficient is a gain (>= 0) for a pump above the channel
+        return False
+    rest = inc
+    if mask is not None:
+        # under the mask exp(h f_pump / kT) = exp(h f_ch / kT) * (1 + P), P > 0
+        pump_f = mask[1]
+        P = Rat.sym('P#pos')
+
+        def sub_exp(at):
+            if at.kind == 'fn' and at.name == 'exp' and isinstance(at.args[0], Rat) and pump_f.single_atom().key in at.args[0].key():
+                other = subst(Rat.of(at), lambda b: fch if b.key == pump_f.single_atom().key else None)
+                return other * (C(1) + P)
+            return None
+        rest = subst(inc, sub_exp)
+    sg = sign(rest, lambda at: positive(at, mask is not None))
+    ctx.check('R3.raman-ase', s, mask is not None and sg in (POS, NONNEG, ZERO), key(f, 'raman-ase-sign'),
+              'a per-pump contribution to the spontaneous Raman ASE is not non-negative by form (it is not gated by  pump frequency > '
+              'channel frequency, outside which the phonon factor and the Raman coefficient change sign): a Raman fibre could raise OSNR',
+              f'mask {"present" if mask else "absent"}; sign {sg}; contribution = {vkey(inc)[:300]}')
+    rf = repo.cls('RamanFiber', EL)
+    pr = repo.method(rf, 'propagate')
+    evp = Evaluator(repo, pr, types={'self': rf, pr.params[1]: si},
+                    no_inline={'compute_nli', 'calculate_stimulated_raman_scattering', 'calculate_spontaneous_raman_scattering', 'add_nli',
+                               'add_ase', 'gnpy.core.elements.Fiber.chromatic_dispersion', 'apply_attenuation_db', 'apply_attenuation_lin'}).run_function()
+    aa = [c for c in evp.calls if c.name == 'add_ase']
+    ok = len(aa) == 1 and isinstance(aa[0].args[0], Rat) and 'calculate_spontaneous_raman_scattering' in vkey(aa[0].args[0])
+    ctx.check('R3.raman-ase', f'{site(pr)} add_ase(spontaneous scattering)', ok, key(pr, 'raman-ase-passthrough'),
+              'the Raman fibre does not add exactly the ASE computed by calculate_spontaneous_raman_scattering')
+    ctx.need('R3.raman-ase', 2)
+
+
+RULES = [('R3.raman-ase', r3b_raman_ase), ('R1.effects', r1_effects), ('R2.identities', r2_identities), ('R3.sign', r3_sign)]
